@@ -10,6 +10,7 @@ Rows are Python dicts keyed by the header cells: `dict(zip(header, row))`, then
 `row.values()` — modelled as insertion-ordered association lists.
 -/
 import NumbersModel.Py.Basic
+import NumbersModel.Model.CsvCodec
 namespace NumbersModel.Csv
 open NumbersModel
 
@@ -57,19 +58,34 @@ def dataRow {ν κ} [DecidableEq κ] (pyFloat : Text → FloatCls ν) (norm : Te
     (header : List κ) (row : List Text) : List (Cell ν) :=
   (dictZip header row).map (fun kv => coerce pyFloat (if o.whitespace then norm kv.2 else kv.2))
 
-/-- the table written by `Converter.save` for a CSV grid (first row = header unless `noHeader`). -/
+/-- `Converter.__post_init__` on the rows the reader returned (`_read_csv` splits off the header row,
+    `_transform_data` builds and coerces the row dicts) and the rows `save` lays out.  A file without any row is
+    refused with RuntimeError (fixes/C20-one-line-errors.patch; before it `next(csvreader)` let StopIteration
+    escape and `self.data[0]` raised IndexError). -/
 def convert {ν} (pyFloat : Text → FloatCls ν) (norm : Text → Text) (o : Opts) (grid : List (List Text)) :
-    List (List (Cell ν)) :=
+    PyM (List (List (Cell ν))) :=
   if o.noHeader then
-    let width := (grid.head?.map List.length).getD 0
-    let rows := if o.reverse then grid.reverse else grid
-    rows.map (dataRow pyFloat norm o (List.range width))
+    match grid with
+    | [] => .error .RuntimeError
+    | first :: _ =>
+      let rows := if o.reverse then grid.reverse else grid
+      .ok (rows.map (dataRow pyFloat norm o (List.range first.length)))
   else
     match grid with
-    | [] => []
+    | [] => .error .RuntimeError
     | header :: data =>
       let rows := if o.reverse then data.reverse else data
-      header.map Cell.text :: rows.map (dataRow pyFloat norm o header)
+      .ok (header.map Cell.text :: rows.map (dataRow pyFloat norm o header))
+
+def maxLen {α} : List (List α) → Nat
+  | [] => 0
+  | r :: rest => max r.length (maxLen rest)
+
+/-- the table `save` creates: `max(len(row)) ` (at least 1) columns; cells that are never written stay empty and
+    are exported as the empty string, like a written `""` -/
+def padTable {ν} (rows : List (List (Cell ν))) : List (List (Cell ν)) :=
+  let w := max (maxLen rows) 1
+  rows.map (fun r => r ++ List.replicate (w - r.length) (Cell.text []))
 
 /-- `cell_as_string` for text and number cells (brief mode, without the formulas or formatting options). -/
 def exportCell {ν} (render : ν → Text) : Cell ν → Text
@@ -78,5 +94,31 @@ def exportCell {ν} (render : ν → Text) : Cell ν → Text
 
 def exportGrid {ν} (render : ν → Text) (t : List (List (Cell ν))) : List (List Text) :=
   t.map (·.map (exportCell render))
+
+/-- csv2numbers on the text of a CSV file, then cat-numbers -b on the document: the text printed.
+    Saving and reopening the document is the identity on cells here (that is C01's statement). -/
+def importExport {ν} (cfg : CsvCodec.Cfg) (pyFloat : Text → FloatCls ν) (norm : Text → Text) (render : ν → Text)
+    (o : Opts) (csvText : Text) : PyM Text :=
+  match CsvCodec.readGrid cfg csvText with
+  | .error e => .error e
+  | .ok grid =>
+    match convert pyFloat norm o grid with
+    | .error e => .error e
+    | .ok table => .ok (CsvCodec.writeGrid (exportGrid render (padTable table)))
+
+/-- what one cell of a data row must come back as -/
+def cellOut {ν} (pyFloat : Text → FloatCls ν) (norm : Text → Text) (render : ν → Text) (o : Opts) (v : Text) : Text :=
+  exportCell render (coerce pyFloat (if o.whitespace then norm v else v))
+
+/-- the grid the export must parse to: the header row unchanged (header mode), the data rows in file order or
+    reversed, every data cell as `cellOut` -/
+def expectedGrid {ν} (pyFloat : Text → FloatCls ν) (norm : Text → Text) (render : ν → Text) (o : Opts)
+    (grid : List (List Text)) : List (List Text) :=
+  if o.noHeader then
+    (if o.reverse then grid.reverse else grid).map (·.map (cellOut pyFloat norm render o))
+  else
+    match grid with
+    | [] => []
+    | header :: data => header :: (if o.reverse then data.reverse else data).map (·.map (cellOut pyFloat norm render o))
 
 end NumbersModel.Csv
